@@ -4,7 +4,7 @@ from common import log
 
 ATOM = {
     "t_empty": "", "t_a": "a", "t_quote": 'q"q', "t_bslash": "b\\s", "t_lf": "l\nf", "t_ctl": "c\x01", "t_emoji": "\U0001F600",
-    "t_script": "</script>", "t_ls": " ",
+    "t_script": "</script>", "t_ls": " ", "t_kctl": "k\x01\x0b\x7f\\\U000E0001\x1f",
     "n_0": 0.0, "n_m1": -1.0, "n_1p5": 1.5, "n_1e21": 1e21, "n_2p53": 9007199254740992.0,
     "true": True, "false": False, "null": None,
 }
@@ -172,7 +172,7 @@ def run(ctx):
                 rep("nonfinite", "生成JSON of a non-finite number (%s): %s %s" % (why, r["obs"], out if out else r.get("msg")))
     cov = dict(traces_validated_against_impl=len(cases), samples=[dict(spec_value=vecs[5]["v"]), dict(document=meta[2][2])],
                evaluations=len(cases), distinct_nontrivial=len(vecs),
-               rule="exhaustive: top-level dictionaries with <=2 members (ordered keys from 3 key atoms incl. a quote and an astral character) whose values are "
+               rule="exhaustive: top-level dictionaries with <=2 members (ordered keys from 4 key atoms incl. a quote, an astral character and a key made of control characters / DEL / backslash / a non-printable astral character) whose values are "
                     "atoms (9 texts, 5 doubles, 真/假/空) or lists/dictionaries of <=1 atom (17014 values); seeded random values of depth 3 with <=3 members "
                     "(RandomElement, ~5000). For each value: generated text read by Python json (order-preserving, constants rejected), Python-encoded text "
                     "(ascii/non-ascii, compact/spaced/indented) parsed by 解析JSON, composition compared by value and by 为; plus %d single-character "
